@@ -1,5 +1,6 @@
 import Pds.Proofs.Cms
 import Pds.Proofs.SizingCount
+import Pds.Proofs.SizingReal
 /-!
 The overestimate of a count-min sketch is made of the *other* elements only, and the counting
 form of the `(ε, δ)` guarantee on top of the table invariant of `Pds.Proofs.Cms`.
@@ -158,5 +159,40 @@ theorem overestimate_gt_iff {hash : List Nat → Nat} {w d cmax : Nat} {s : St}
     rw [hat]
     push_cast
     linarith
+
+open Pds.Sizing in
+/-- fewer than `1/ε` cells of a row of a reachable sketch exceed `ε·N` -/
+theorem sketch_row_heavy {hash : List Nat → Nat} {w d cmax : Nat} (hw : 0 < w) (hd : 0 < d)
+    {h : List Op} {s : St} (hr : run hash w d cmax h = some s) {r : Nat} (hrd : r < d) {ε : ℝ}
+    (hε : 0 < ε) (hN : 0 < totalWeight h) :
+    ((((List.range w).map fun c => cell s.table (r * w + c)).countP
+      fun v : ℕ => ε * (totalWeight h : ℝ) < (v : ℝ)) : ℝ) < 1 / ε := by
+  have hN' : (0 : ℝ) < totalWeight h := by exact_mod_cast hN
+  have := list_heavy_lt ((List.range w).map fun c => cell s.table (r * w + c)) (mul_pos hε hN') hN
+    (le_of_eq (inv_row_sum hw (run_inv hw hd hr) hrd))
+  have e : (totalWeight h : ℝ) / (ε * totalWeight h) = 1 / ε := by field_simp
+  rwa [e] at this
+
+open Pds.Sizing in
+/-- parameters, counting bound and characterisation of a large overestimate together -/
+theorem cms_eps_delta {ε δ : ℝ} (hε : 0 < ε) (hδ : 0 < δ) (hδ1 : δ < 1) {w d : ℕ}
+    (hp : cmsParams ε δ = some (w, d)) (hash : List Nat → Nat) (cmax : Nat) {h : List Op} {s : St}
+    (hN : 0 < totalWeight h) (x : Nat) :
+    ∃ hw : 0 < w, 0 < d ∧
+      ((badTuples hash w d (ε * totalWeight h) (others x (stream h))).card : ℝ) < δ * (w : ℝ) ^ d ∧
+      (run hash w d cmax h = some s → ∀ v, query hash s x = some v →
+        (ε * (totalWeight h : ℝ) < (v : ℝ) - (trueWeight h x : ℝ) ↔
+          colTuple hash hw d x ∈ badTuples hash w d (ε * totalWeight h) (others x (stream h)))) := by
+  rw [cmsParams_eq hε hδ hδ1] at hp
+  simp only [Option.some.injEq, Prod.mk.injEq] at hp
+  obtain ⟨rfl, rfl⟩ := hp
+  have hw := (cms_width_bounds hε).2
+  have hd := (cms_depth_bounds hδ hδ1).1
+  refine ⟨hw, hd, ?_, ?_⟩
+  · apply badTuples_card_lt hash hw hd hε (cms_width_bounds hε).1 (cms_depth_bounds hδ hδ1).2 hN
+    have := total_others x (stream h)
+    unfold totalWeight; omega
+  · intro hr v hq
+    exact overestimate_gt_iff hw hd (run_inv hw hd hr) x _ hq
 
 end Pds.Cms
